@@ -120,6 +120,7 @@ def finish(name, hyps, harness, funcs, bound, sig, witfn, max_paths=3000):
             nq += 1
             v, m = Q.check(hyps + p.cond() + [b], 30, tag=f"{name}|{lab}")
             if v == "sat":
+                m = core.normalised_model(hyps + p.cond() + [b], 30, tag=f"{name}|{lab}|normalise") or m
                 return result(name, VIOLATED, functions=funcs, bound=bound, twin="sat", signature=f"{sig}|{lab}", witness=witfn(m, lab))
             if v != "unsat":
                 return result(name, INCONCLUSIVE, reason=f"unknown at {lab}", functions=funcs, bound=bound)
